@@ -576,8 +576,10 @@ def show(data, limit=4000):
 def run(rep):
     seed, tier = rep.seed, rep.tier
     quick = tier == "quick"
+    t_stage = time.time()
     cq = common.coq_check_props(PROP)
     common.proof_coverage(rep, cq)
+    rep.coverage["coq_wall_s_incl_lock_wait"] = round(time.time() - t_stage, 1)
     if not cq["ok"]:
         rep.violation("proof", {"theorem": cq["failed_theorem"], "log": cq["log"][-3000:]},
                       "proof obligation %s no longer checks" % cq["failed_theorem"], True)
@@ -590,6 +592,7 @@ def run(rep):
     leaf = common.build_leaf("c10_lexdump", ["src/frontend/recursive_parser/recursive_lexer.cpp"])
     asan = common.build_impl("asan")
     plain = common.build_impl("plain")
+    rep.coverage["builds_wall_s_incl_lock_wait"] = round(time.time() - t_stage - rep.coverage["coq_wall_s_incl_lock_wait"], 1)
     findings = common.known_findings(PROP)
     names = token_enum()
     files = sorted(os.path.join(r, f) for r, _, fs in os.walk(common.REPO) for f in fs if f.endswith(".cb")
